@@ -1115,6 +1115,7 @@ func (m *model) runLockNew(f *inflight) outcome {
 	}
 	if !initial && op.LockSeq != nextSeq(lo.lastSeq) {
 		m.mark("out_of_order_seqid")
+		m.mark("out_of_order_lock_seqid_with_new_lock_owner_flag")
 		o := finish(nfsv4.NFS4ERR_BAD_SEQID, fmt.Sprintf("lock-owner seqid %d is neither the last (%d) nor its successor", op.LockSeq, lo.lastSeq), nil)
 		o.class = "C19"
 		return o
